@@ -17,6 +17,7 @@ import (
 	"encoding/binary"
 	"encoding/json"
 	"fmt"
+	"net"
 	"os"
 	"reflect"
 	"sort"
@@ -100,12 +101,11 @@ func newKAWorldRig(rig string) *kaWorld {
 	w.player, _ = newVPlayer(w.client, &config.Config{}, &detEvent{}, nil)
 	mk := func(name string, st *state.Registry) *kaBackend {
 		kb := &kaBackend{name: name, conn: newVConn(name, protocol, st), sends: map[int64]int{}, via: map[string]int{}}
-		kb.sc = &serverConnection{
-			player:       w.player,
-			log:          logr.Discard(),
-			pendingPings: lru.NewSync[int64, time.Time](lru.WithCapacity(pendingKeepAliveCapacity)),
-			connPhase:    phase.VanillaBackendPhase, // "considered complete": the generic forwardToServer path is open
-		}
+		// built the way production does (server switch: the in-flight connection is created while the player
+		// still has its current server): whatever newServerConnection shares between the two is shared here too
+		kb.sc = newServerConnection(newRegisteredServer(NewServerInfo(name, &net.TCPAddr{IP: net.IPv4(127, 0, 0, 1), Port: 25566 + len(name)})), nil, w.player)
+		kb.sc.log = logr.Discard()
+		kb.sc.connPhase = phase.VanillaBackendPhase // "considered complete": the generic forwardToServer path is open
 		kb.sc.connection = kb.conn
 		kb.conn.onPayload = func(b []byte) {
 			if len(b) == 9 && b[0] == 0x15 {
@@ -124,13 +124,18 @@ func newKAWorldRig(rig string) *kaWorld {
 		return kb
 	}
 	w.b[0] = mk("A", state.Play)
-	w.b[1] = mk("B", state.Config)
 	if rig != "join" {
 		w.player.connectedServer_ = w.b[0].sc
 	}
+	w.b[1] = mk("B", state.Config) // created while A is the connected server (rig join: while there is none)
 	w.player.connInFlight = w.b[1].sc
 	w.h = newClientPlaySessionHandler(w.player)
 	w.hc = newClientConfigSessionHandler(w.player)
+	if rig == "play" {
+		w.client.handler = w.h
+	} else {
+		w.client.handler = w.hc
+	}
 	return w
 }
 
@@ -147,16 +152,23 @@ func (w *kaWorld) send(i int, id int64) {
 	kb.sends[id]++
 	ka := &packet.KeepAlive{RandomID: id}
 	pc := &proto.PacketContext{Direction: proto.ClientBound, Protocol: w.client.protocol, Packet: ka, Payload: kaPayload(id)}
+	// handlers come from the production constructors (the play handler needs the client to be in PLAY with its
+	// play handler active; otherwise - client still in CONFIG - the struct is filled in by hand)
 	switch {
 	case kb.conn.st == state.Config:
 		kb.via["config"]++
-		(&backendConfigSessionHandler{serverConn: kb.sc, log: logr.Discard()}).HandlePacket(pc)
+		h, _ := newBackendConfigSessionHandler(kb.sc, nil)
+		h.HandlePacket(pc)
 	case kb.conn.st == state.Play && w.player.connectedServer_ == kb.sc: // harness-side read; one thread runs at a time
 		kb.via["play"]++
-		(&backendPlaySessionHandler{serverConn: kb.sc, log: logr.Discard(), playerSessionHandler: w.h}).HandlePacket(pc)
+		h, err := newBackendPlaySessionHandler(kb.sc)
+		if err != nil {
+			h = &backendPlaySessionHandler{serverConn: kb.sc, log: logr.Discard(), playerSessionHandler: w.h}
+		}
+		h.HandlePacket(pc)
 	case kb.conn.st == state.Play:
 		kb.via["transition"]++
-		(&backendTransitionSessionHandler{serverConn: kb.sc, log: logr.Discard()}).HandlePacket(pc)
+		newBackendTransitionSessionHandler(kb.sc, nil, w.player.proxy).HandlePacket(pc)
 	default:
 		kb.via["direct"]++
 		recordBackendKeepAlive(kb.sc, ka)
